@@ -10,7 +10,10 @@
 (*        the worker hung                                                  *)
 (*      {e:"healthy", killed: workers of the healthy pool that vanished}   *)
 (* bound_ms = timeout + master period + escalation period + slack, chosen  *)
-(* by the driver and recorded in the trace.                                *)
+(* by the driver and recorded in the trace; min_ms = the earliest moment   *)
+(* the kill may come (timeout after a known sign of life: the start of the *)
+(* blocking request; 0 when the last heartbeat before a SIGSTOP is not     *)
+(* known).                                                                 *)
 (***************************************************************************)
 EXTENDS Integers, Sequences, TLC, Json, IOUtils, TLCExt
 Traces == ndJsonDeserialize(IOEnv.TRACE_FILE)
@@ -21,7 +24,7 @@ T == Traces[tid]
 V(e) ==
   IF e.e = "gone" THEN
      (IF e.after_ms < 0 \/ e.after_ms > T.bound_ms THEN "HungWorkerNotKilledInTime"
-      ELSE IF e.after_ms < T.timeout_ms THEN "KilledBeforeTimeout" ELSE "ok")
+      ELSE IF e.after_ms < T.min_ms THEN "KilledBeforeTimeout" ELSE "ok")
   ELSE IF e.e = "pool" THEN (IF e.nworkers # e.want THEN "HungWorkerNotReplaced" ELSE "ok")
   ELSE IF e.e = "others" THEN (IF e.failed > 0 THEN "RestOfServerStoppedServing" ELSE "ok")
   ELSE (IF e.killed > 0 THEN "HealthyWorkerKilled" ELSE "ok")
